@@ -203,6 +203,19 @@ theorem C13_pass_to_process (s : State) (hr : Reachable s) (p q i : Nat)
     simp [s3, s2, s1, decref, incref, hrc]
     intro j hj; simp [hj]
 
+/-- a child `q` started with the FORK start method inherits `p`'s proxy object through memory; the
+    after-fork hook makes the copy a counted reference of its own (increment + finalizer): exactly
+    one more reference, held by `q`; count + 1; the parent's proxy untouched -/
+theorem C13_fork_inherits (s : State) (hr : Reachable s) (p q i : Nat)
+    (hm : (Holder.client p, i) ∈ s.refs) (hp : s.stat p = .running) (hq : s.stat q = .running) :
+    ∃ s', step s (.fork p q i) = some s' ∧ s'.refs = (.client q, i) :: s.refs ∧ s'.rc i = s.rc i + 1 ∧
+      (∀ j, j ≠ i → s'.rc j = s.rc j) ∧ s'.hosted = s.hosted ∧ s'.shm = s.shm := by
+  have hh := (C13_alive s hr _ i hm).1
+  refine ⟨{ incref s i with refs := (.client q, i) :: s.refs }, ?_, ?_⟩
+  · simp [step, hm, hp, hq, hh]
+  · simp [incref]
+    intro j hj; simp [hj]
+
 /-- deleting the proxy that holds the last count destroys the object and unlinks its shared memory
     in that very step -/
 theorem C13_delete_last_reference (s : State) (p i : Nat)
